@@ -73,6 +73,18 @@ def _align_factor(exp, exact=False):
         return Fraction(1, 2**(-exp))
     return 2**exp
 
+def _accum_cast(n_bits, shift, mixed=False):
+    """
+    Returns the cast for raw values that accumulate up to `n_bits` bits and are then aligned by 2**shift, and the
+    align factor itself: python integers (object arrays) when the aligned result may not fit 64 bits integers (or when
+    numpy would mix signed and unsigned 64 bits integers into floats beyond 53 bits), and an exact factor when a
+    negative shift is applied to more than 53 bits.
+    """
+    exact = shift < 0 and n_bits > 53
+    if exact or n_bits + max(shift, 0) >= _n_word_max - 1 or (mixed and n_bits >= 53):
+        return _object_cast, _object_cast(_align_factor(shift, exact))
+    return (lambda m: m), 2**shift
+
 def _get_sizing(vars, sizing, method, optimal_size=None):
         if not isinstance(vars, list):
             vars = [vars]
@@ -599,8 +611,8 @@ def sum(x, axis=None, out=None, out_like=None, sizing='optimal', method='raw', *
     """
     """
     def _sum_raw(x, n_frac, **kwargs):
-        precision_cast = (lambda m: np.array(m, dtype=object)) if n_frac >= _n_word_max else (lambda m: m)
-        return np.sum(x.val, **kwargs) * precision_cast(2**(n_frac - x.n_frac))
+        raw_cast, factor = _accum_cast(x.n_word + int(np.ceil(np.log2(max(x.size, 1)))), n_frac - x.n_frac)
+        return np.sum(raw_cast(x.val), **kwargs) * factor
 
     if not isinstance(x, Fxp):
         x = Fxp(x)
@@ -619,8 +631,8 @@ def cumsum(x, axis=None, out=None, out_like=None, sizing='optimal', method='raw'
     """
     """
     def _cumsum_raw(x, n_frac, **kwargs):
-        precision_cast = (lambda m: np.array(m, dtype=object)) if n_frac >= _n_word_max else (lambda m: m)
-        return np.cumsum(x.val, **kwargs) * precision_cast(2**(n_frac - x.n_frac))
+        raw_cast, factor = _accum_cast(x.n_word + int(np.ceil(np.log2(max(x.size, 1)))), n_frac - x.n_frac)
+        return np.cumsum(raw_cast(x.val), **kwargs) * factor
 
     if not isinstance(x, Fxp):
         x = Fxp(x)
@@ -733,8 +745,8 @@ def trace(a, offset=0, axis1=0, axis2=1, out=None, out_like=None, sizing='optima
     """
     """
     def _trace_raw(x, n_frac, **kwargs):
-        precision_cast = (lambda m: np.array(m, dtype=object)) if n_frac >= _n_word_max else (lambda m: m)
-        return np.trace(x.val, **kwargs) * precision_cast(2**(n_frac - x.n_frac))
+        raw_cast, factor = _accum_cast(x.n_word + int(np.ceil(np.log2(max(x.size, 1)))), n_frac - x.n_frac)
+        return np.trace(raw_cast(x.val), **kwargs) * factor
 
     if not isinstance(a, Fxp):
         a = Fxp(a)
@@ -778,8 +790,9 @@ def dot(x, y, out=None, out_like=None, sizing='optimal', method='raw', **kwargs)
     """
     """
     def _dot_raw(x, y, n_frac, **kwargs):
-        precision_cast = (lambda m: np.array(m, dtype=object)) if n_frac >= _n_word_max else (lambda m: m)
-        return np.dot(x.val, y.val, **kwargs) * precision_cast(2**(n_frac - x.n_frac - y.n_frac))
+        raw_cast, factor = _accum_cast(x.n_word + y.n_word + int(np.ceil(np.log2(max(x.shape[-1] if x.ndim else 1, 1)))), n_frac - x.n_frac - y.n_frac,
+                                       mixed=np.asarray(x.val).dtype != np.asarray(y.val).dtype)
+        return np.dot(raw_cast(x.val), raw_cast(y.val), **kwargs) * factor
 
     if not isinstance(x, Fxp):
         x = Fxp(x)
@@ -801,8 +814,9 @@ def matmul(x, y, out=None, out_like=None, sizing='optimal', method='raw', **kwar
     Matrix product of two fixed-point arrays (sized like `dot`).
     """
     def _matmul_raw(x, y, n_frac, **kwargs):
-        precision_cast = (lambda m: np.array(m, dtype=object)) if n_frac >= _n_word_max else (lambda m: m)
-        return np.matmul(x.val, y.val, **kwargs) * precision_cast(2**(n_frac - x.n_frac - y.n_frac))
+        raw_cast, factor = _accum_cast(x.n_word + y.n_word + int(np.ceil(np.log2(max(x.shape[-1] if x.ndim else 1, 1)))), n_frac - x.n_frac - y.n_frac,
+                                       mixed=np.asarray(x.val).dtype != np.asarray(y.val).dtype)
+        return np.matmul(raw_cast(x.val), raw_cast(y.val), **kwargs) * factor
 
     if not isinstance(x, Fxp):
         x = Fxp(x)
